@@ -414,7 +414,7 @@ def run_client(case: dict):
         return viol("not-cut-off-at-the-size-cap", f"the server sent {len(D) - i_ - 2} body bytes (cap {CAP}) and then went quiet; the call waited "
                     f"{dur:.0f} s for the timeout instead of ending at the cap", **info)
     if exp[0] == "pending" and outcome == ("exc", "TimeoutError"):
-        if dur > 2 * TIMEOUT + 1:
+        if dur > TIMEOUT + 2.0:  # the peer handshakes at once; on the unchanged tree the call ends at TIMEOUT sharp
             return viol("timeout-too-late", f"{dur}", **info)
         return ok(outcome=str(outcome), **info)
     v = judge(case, ("exc",) if o2 == ("exc", "TimeoutError") and exp[0] != "pending" else o2, exp, info)
@@ -423,7 +423,7 @@ def run_client(case: dict):
     # promptness: once the peer has closed/reset (or the client itself may stop: non-2x header, cap, parse error)
     if case["term"] not in ("stall", "trickle") and since_close is not None and since_close > 1.0:
         return viol("not-prompt-after-peer-close", f"call ended {since_close:.1f} virtual s after the peer closed; outcome {outcome}", **info)
-    if dur > 2 * TIMEOUT + 1:
+    if dur > TIMEOUT + 2.0:  # the peer handshakes at once; on the unchanged tree the call ends at TIMEOUT sharp
         return viol("timeout-too-late", f"{dur}", **info)
     return v
 
